@@ -542,3 +542,211 @@ Example merge_order_refuted :
   | None => False
   end.
 Proof. vm_compute. repeat split; reflexivity. Qed.
+
+(* ---------- the level-wise test of merge_step gives the tree-level guard ---------- *)
+
+From HV Require Import Topo.LevelsProofs.
+
+Lemma nflatten_child r : forall p c, In p (nflatten r) -> In c (onch p) -> In c (nflatten r).
+Proof.
+  induction r as [d n m i x Hn _ _ _] using obj_ind4. intros p c Hp Hc.
+  rewrite nflatten_eq in *. cbn [onch] in *. destruct Hp as [<-|Hp].
+  - cbn [onch] in Hc. right. now apply in_nflattens_self.
+  - right. unfold nflattens in *. apply in_flat_map in Hp. destruct Hp as [k [Hk Hp]].
+    apply in_flat_map. exists k. split; [exact Hk|].
+    rewrite Forall_forall in Hn. now apply (Hn k Hk p c).
+Qed.
+
+Lemma nodup_key_eq {A} (f : A -> N) (l : list A) a b :
+  NoDup (map f l) -> In a l -> In b l -> f a = f b -> a = b.
+Proof.
+  induction l as [|h t IH]; cbn [map]; intros Hn Ha Hb E; [destruct Ha|].
+  inversion Hn as [|? ? Hnot Ht]; subst.
+  destruct Ha as [<-|Ha], Hb as [<-|Hb]; try reflexivity.
+  - exfalso. apply Hnot. rewrite E. now apply in_map.
+  - exfalso. apply Hnot. rewrite <- E. now apply in_map.
+  - now apply IH.
+Qed.
+
+Lemma pairs_guard l1 : forall l2 chk,
+  levels_same_structure l1 l2 chk = true -> parent_first_differs l1 l2 = false ->
+  forall p, In p l1 -> exists c c', In c l2 /\ onch p = [c'] /\ oid c' = oid c /\ rk p = rk c.
+Proof.
+  induction l1 as [|p1 t1 IH]; intros [|c2 t2] chk Hs Hd p Hp; try destruct Hp; try discriminate.
+  - subst p. cbn [levels_same_structure parent_first_differs] in *.
+    apply andb_true_iff in Hs as [Hs _]. apply andb_true_iff in Hs as [Hs _].
+    apply orb_false_iff in Hd as [Hd _]. apply negb_false_iff in Hd.
+    destruct (onch p1) as [|c' [|? ?]] eqn:En; try discriminate.
+    exists c2, c'. split; [now left|]. split; [reflexivity|]. split; [now apply N.eqb_eq|].
+    unfold rk. unfold opt_N_eqb in Hd.
+    destruct (first_index (o_ccs (odata p1))) as [a|], (first_index (o_ccs (odata c2))) as [b|]; try discriminate; [|reflexivity].
+    apply N.eqb_eq in Hd. now subst.
+  - cbn [levels_same_structure parent_first_differs] in *.
+    apply andb_true_iff in Hs as [_ Hs]. apply orb_false_iff in Hd as [_ Hd].
+    destruct (IH t2 chk Hs Hd p H) as [c [c' [Hc R]]]. exists c, c'. split; [now right|exact R].
+Qed.
+
+Theorem level_guard root ls i l1 l2 chk :
+  levels_of root = Some ls -> nth_error ls (Nat.pred i) = Some l1 -> nth_error ls i = Some l2 ->
+  NoDup (map oid (nflatten root)) ->
+  levels_same_structure l1 l2 chk = true -> parent_first_differs l1 l2 = false ->
+  guard (map oid l1) root.
+Proof.
+  intros Hl H1 H2 Hn Hs Hd. pose proof (levels_of_partition root ls Hl) as Hp.
+  assert (In1 : forall q, In q l1 -> In q (nflatten root)).
+  { intros q Hq. apply (Permutation_in _ Hp). apply in_concat. exists l1. split; [eapply nth_error_In; eassumption|exact Hq]. }
+  assert (In2 : forall q, In q l2 -> In q (nflatten root)).
+  { intros q Hq. apply (Permutation_in _ Hp). apply in_concat. exists l2. split; [eapply nth_error_In; eassumption|exact Hq]. }
+  unfold guard. rewrite Forall_forall. intros p Hpin Hm c Hc.
+  unfold memN in Hm. apply existsb_exists in Hm. destruct Hm as [k [Hk Ek]]. apply N.eqb_eq in Ek.
+  apply in_map_iff in Hk. destruct Hk as [p1 [E1 Hp1]].
+  assert (p = p1) by (apply (nodup_key_eq oid (nflatten root)); auto; congruence). subst p1.
+  destruct (pairs_guard _ _ _ Hs Hd p Hp1) as [c2 [c' [Hc2 [Ho [Eid Erk]]]]].
+  rewrite Ho in Hc. injection Hc as <-.
+  assert (c' = c2).
+  { apply (nodup_key_eq oid (nflatten root)); auto.
+    apply (nflatten_child root p c' Hpin). rewrite Ho. now left. }
+  now subst.
+Qed.
+
+(* removing the CHILD level never needs the test: the parent keeps its place and its payload *)
+Lemma merge_tree_rk_rc ids o : rk (merge_tree ids true o) = rk o.
+Proof. unfold rk. now rewrite merge_tree_replacechild_root. Qed.
+
+Theorem merge_tree_children_ordered_rc ids o : ord_tree o -> ord_tree (merge_tree ids true o).
+Proof.
+  induction o as [d n m i x Hn _ _ _] using obj_ind4. intros Ho.
+  pose proof (ord_children _ _ _ _ _ Ho) as On.
+  assert (Hl : Forall kids_ordered (nflattens (map (merge_tree ids true) n))).
+  { unfold nflattens. clear Ho. induction Hn as [|c tl Hc _ IH]; [constructor|].
+    inversion On; subst. cbn [map flat_map]. apply Forall_app. split; [now apply Hc|now apply IH]. }
+  assert (Hk : kids_ordered (Obj d (map (merge_tree ids true) n) m i x)).
+  { unfold ord_tree in Ho. rewrite nflatten_eq in Ho. inversion Ho as [|? ? H0 _]; subst.
+    unfold kids_ordered in *. cbn [onch] in *.
+    rewrite (ordered_first_ext _ (map (fun c => oset (o_ccs (odata c))) n)); [exact H0|].
+    rewrite !map_map. apply map_ext. intros a.
+    apply first_Z_rk. apply merge_tree_rk_rc. }
+  assert (Plain : ord_tree (Obj d (map (merge_tree ids true) n) m i x)).
+  { unfold ord_tree. rewrite nflatten_eq. cbn [onch]. constructor; [exact Hk|exact Hl]. }
+  rewrite merge_tree_eq. destruct (memN (o_id d) ids); [|exact Plain].
+  destruct (map (merge_tree ids true) n) as [|[dc cn cm ci cx] [|c2 tl]] eqn:En; try exact Plain.
+  unfold nflattens in Hl. cbn [flat_map] in Hl. rewrite app_nil_r, nflatten_eq in Hl. cbn [onch] in Hl.
+  inversion Hl as [|? ? Hcn Hrest]; subst.
+  unfold ord_tree. rewrite nflatten_eq. cbn [onch]. constructor; [|exact Hrest].
+  unfold kids_ordered in *. cbn [onch] in *. exact Hcn.
+Qed.
+
+(* one iteration of the pass keeps the normal children of every object in order *)
+Theorem merge_step_children_ordered filters dm root ls i :
+  levels_of root = Some ls -> NoDup (map oid (nflatten root)) ->
+  ord_tree root -> ord_tree (merge_step filters dm ls i root).
+Proof.
+  intros Hl Hn Ho. unfold merge_step.
+  destruct (nth_error ls (Nat.pred i)) as [[|o1 t1]|] eqn:E1; try exact Ho.
+  destruct (nth_error ls i) as [[|o2 t2]|] eqn:E2; try exact Ho.
+  cbv zeta.
+  set (rp0 := (filt filters (otype o1) =? HWLOC_TYPE_FILTER_KEEP_STRUCTURE) && _).
+  set (rc0 := (filt filters (otype o2) =? HWLOC_TYPE_FILTER_KEEP_STRUCTURE) && _).
+  set (rc1 := if negb rc0 && negb rp0 then _ else rc0).
+  destruct (negb rc1 && negb rp0) eqn:Enone; [exact Ho|].
+  set (rp := if rp0 && rc1 then _ else rp0).
+  set (rc := if rp0 && rc1 then negb rp else rc1).
+  destruct (levels_same_structure (o1 :: t1) (o2 :: t2) (otype o2 =? HWLOC_OBJ_PU)) eqn:Es; [|exact Ho].
+  cbn [andb].
+  destruct (negb (rp && (parent_memory_wider (o1 :: t1) (o2 :: t2) || parent_first_differs (o1 :: t1) (o2 :: t2)))) eqn:Eg; [|exact Ho].
+  destruct rc eqn:Erc.
+  - now apply merge_tree_children_ordered_rc.
+  - apply merge_tree_children_ordered; [|exact Ho].
+    assert (Hrp : rp = true).
+    { revert Erc. unfold rc, rp. destruct (rp0 && rc1) eqn:Eb; intros Erc.
+      - now apply negb_false_iff in Erc.
+      - rewrite Erc in Enone. cbn [negb andb] in Enone. now apply negb_false_iff in Enone. }
+    rewrite Hrp in Eg. cbn [andb] in Eg. apply negb_true_iff in Eg. apply orb_false_iff in Eg as [_ Eg].
+    eapply level_guard; eassumption.
+Qed.
+
+(* ---------- the identifiers of the normal objects stay distinct, hence the whole pass keeps the order ---------- *)
+
+Definition nid (o : obj) : list N := map oid (nflatten o).
+
+Lemma nid_eq d n m i x : nid (Obj d n m i x) = o_id d :: flat_map nid n.
+Proof.
+  unfold nid at 1. rewrite nflatten_eq. cbn [map onch oid odata]. f_equal.
+  unfold nflattens. rewrite map_flat_map'. reflexivity.
+Qed.
+
+Lemma nid_merge_list ids rc n :
+  Forall (fun c => exists D, Permutation (nid c) (nid (merge_tree ids rc c) ++ D)) n ->
+  exists D, Permutation (flat_map nid n) (flat_map nid (map (merge_tree ids rc) n) ++ D).
+Proof.
+  induction 1 as [|c tl [Dc Hc] _ [Dt Ht]]; [exists []; constructor|].
+  exists (Dc ++ Dt). cbn [map flat_map]. rewrite Hc, Ht. perm_solve.
+Qed.
+
+Lemma merge_tree_nid ids rc o : exists D, Permutation (nid o) (nid (merge_tree ids rc o) ++ D).
+Proof.
+  induction o as [d n m i x Hn _ _ _] using obj_ind4.
+  destruct (nid_merge_list ids rc n Hn) as [Dn Pn].
+  assert (Plain : exists D, Permutation (nid (Obj d n m i x)) (nid (Obj d (map (merge_tree ids rc) n) m i x) ++ D)).
+  { exists Dn. rewrite !nid_eq, Pn. perm_solve. }
+  rewrite merge_tree_eq. destruct (memN (o_id d) ids); [|exact Plain].
+  destruct n as [|c [|c2 tl]].
+  - exact Plain.
+  - cbn [map] in *. destruct (merge_tree ids rc c) as [dc cn cm ci cx] eqn:Ec.
+    inversion Hn as [|? ? [Dc Hc] _]; subst. rewrite Ec in Hc. rewrite nid_eq in Hc.
+    destruct rc.
+    + exists (o_id dc :: Dc). rewrite !nid_eq. cbn [flat_map]. rewrite app_nil_r, Hc. perm_solve.
+    + exists (o_id d :: Dc). rewrite !nid_eq. cbn [flat_map]. rewrite app_nil_r, Hc. perm_solve.
+  - cbn [map] in *. destruct (merge_tree ids rc c) as [dc cn cm ci cx]. exact Plain.
+Qed.
+
+Lemma NoDup_app_l {A} (a b : list A) : NoDup (a ++ b) -> NoDup a.
+Proof.
+  induction a as [|h t IH]; cbn [app]; intros H; [constructor|].
+  inversion H as [|? ? Hnot Ht]; subst. constructor; [|now apply IH].
+  intros Hin. apply Hnot. apply in_or_app. now left.
+Qed.
+
+Lemma merge_tree_nodup ids rc o : NoDup (nid o) -> NoDup (nid (merge_tree ids rc o)).
+Proof.
+  intros H. destruct (merge_tree_nid ids rc o) as [D P].
+  apply (Permutation_NoDup P) in H. now apply NoDup_app_l in H.
+Qed.
+
+Lemma merge_step_nodup filters dm ls i root : NoDup (nid root) -> NoDup (nid (merge_step filters dm ls i root)).
+Proof.
+  intros H. unfold merge_step.
+  destruct (nth_error ls (Nat.pred i)) as [[|o1 t1]|]; try exact H.
+  destruct (nth_error ls i) as [[|o2 t2]|]; try exact H.
+  cbv zeta.
+  destruct (negb _ && negb _); [exact H|].
+  destruct (levels_same_structure _ _ _ && negb _); [|exact H].
+  now apply merge_tree_nodup.
+Qed.
+
+Theorem keep_structure_children_ordered filters dm root root' :
+  keep_structure filters dm root = Some root' ->
+  NoDup (nid root) -> ord_tree root -> ord_tree root' /\ NoDup (nid root').
+Proof.
+  unfold keep_structure. destruct (levels_of root) as [ls0|]; [|discriminate].
+  generalize (Nat.pred (List.length ls0)). intros k. clear ls0. revert root.
+  induction k as [|k IH]; intros root H Hn Ho; cbn [merge_loop] in H.
+  - injection H as <-. now split.
+  - destruct (levels_of root) as [ls|] eqn:El; [|discriminate].
+    apply (IH _ H).
+    + now apply merge_step_nodup.
+    + now apply merge_step_children_ordered.
+Qed.
+
+Lemma ord_tree_b o : forallb kids_orderedb (nflatten o) = true -> ord_tree o.
+Proof.
+  intros H. unfold ord_tree. rewrite Forall_forall. intros p Hp.
+  rewrite forallb_forall in H. exact (H p Hp).
+Qed.
+
+From HV Require Topo.WF.
+Example merge_pass_example :
+  NoDup (nid wide_tree) /\ ord_tree wide_tree /\ NoDup (nid ex_tree) /\ ord_tree ex_tree.
+Proof.
+  repeat split; try (apply ord_tree_b; vm_compute; reflexivity); apply HV.Topo.WF.nodup_N_spec; vm_compute; reflexivity.
+Qed.
